@@ -152,6 +152,9 @@ def run(ctx: Ctx) -> None:
             mcases.append(m); impls.append(o)
     ctx.compare("DataSourcing", mcases, impls, what="delivered samples / registrations / buffered counts on the observed trace")
 
+    from . import datapath  # full-stack stage: the same property through the real sourcing -> resampling -> formula stack
+    datapath.run_stage(ctx, {"C20-once"}, n_quick=40, n_thorough=600)
+
 
 def replay(ctx: Ctx, data: dict) -> None:
     python_flags()
